@@ -494,7 +494,23 @@ static bool runScenario(uint64_t seed, uint64_t idx, int which)
   char sig[160];
   snprintf(sig, sizeof sig, "%s tick=%d lv=%zu tpw=%zu sd=%d thr=%d cT=%d cF=%d rs=%d per=%d disc=%d", N.c_str(), int(tickMs), levels, tpw, shutdownKind, nThreads, nCancelTrue ? 1 : 0, cancelLostRace ? 1 : 0, nReschedTrue ? 1 : 0, nPeriodic ? 1 : 0, nDiscarded ? 1 : 0);
   O.caseSig(vf::fnv(sig, strlen(sig)));
-  if (idx % 16 == 0) O.sample("{\"kind\":\"timer scenario\",\"sig\":" + vf::jstr(sig) + ",\"timers\":" + std::to_string(nValid) + ",\"fired\":" + std::to_string(nFired) + "}");
+  if (idx % 16 == 0)
+  {
+    // a few per-timer histories of this scenario, times in microseconds relative to the schedule() call
+    std::ostringstream h;
+    int shown = 0;
+    for (size_t i = 0; i < n && shown < 5; i += std::max<size_t>(1, n / 5))
+    {
+      Rec *r = S->recs[i].get();
+      if (!r->id.load()) continue;
+      int f = r->fires.load();
+      h << (shown++ ? "," : "") << "{\"delay_ms\":" << r->delayNs / 1000000 << ",\"periodic\":" << (r->periodic ? 1 : 0) << ",\"fires\":" << f
+        << ",\"first_entry_after_call_us\":" << (f ? int64_t(r->entry[0].load() - r->callNs.load()) / 1000 : -1)
+        << ",\"cancel\":" << r->cancelRes.load() << ",\"cancel_returned_after_call_us\":" << (r->cancelRes.load() >= 0 ? int64_t(r->cancelRetNs.load() - r->callNs.load()) / 1000 : -1)
+        << ",\"reschedule\":" << r->reschedRes.load() << ",\"reschedule_delay_ms\":" << r->reschedDelayNs.load() / 1000000 << "}";
+    }
+    O.sample("{\"kind\":\"timer scenario\",\"sig\":" + vf::jstr(sig) + ",\"timers\":" + std::to_string(nValid) + ",\"fired\":" + std::to_string(nFired) + ",\"second_life\":" + (restarted ? "true" : "false") + ",\"timer_histories\":[" + h.str() + "]}");
+  }
   // destruction under a watchdog: a service whose internal lists were corrupted can loop forever here
   {
     std::atomic<bool> destroyed{false};
